@@ -5,7 +5,6 @@ import (
 	"go/constant"
 	"go/token"
 	"go/types"
-	"os"
 	"runtime/debug"
 	"sort"
 	"strings"
@@ -136,12 +135,17 @@ type engResult struct {
 }
 
 var engCache = map[*core.Program]*engResult{}
+var engCacheMu sync.Mutex
 
 func emitEngine(r *core.Run, rule string) {
+	engCacheMu.Lock()
 	res := engCache[r.Prog]
+	engCacheMu.Unlock()
 	if res == nil {
 		res = runEngineAll(r)
+		engCacheMu.Lock()
 		engCache[r.Prog] = res
+		engCacheMu.Unlock()
 	}
 	pkgFilter := map[string][]string{"C06": {"js."}, "C07": {"css."}, "C09": {"html."}, "C10": {"json."}, "C11": {"xml."}}
 	n := 0
@@ -179,6 +183,9 @@ func emitEngine(r *core.Run, rule string) {
 		}
 	}
 	floors := map[string]int{"R-CURSOR": 500, "R-PROGRESS": 60, "R-EOF": 5, "R-ERRMOVE": 20, "R-TILE": 60, "R-SPELL": 60, "R-TAGSTATE": 10, "R-ERRSTUCK": 12, "R-INPLACE": 4, "R-RESTORE": 30, "R-EOFNEST": 3}
+	if engineFilter(r.Prog) != "" {
+		return
+	}
 	if _, filtered := pkgFilter[r.Prop]; !filtered && r.Prop != "C15" {
 		r.Floor("engine obligations "+rule, n, floors[rule])
 	} else {
@@ -193,17 +200,18 @@ func runEngineAll(r *core.Run) *engResult {
 	old := debug.SetGCPercent(600)
 	defer debug.SetGCPercent(old)
 	var tasks []*engTask
+	only := engineFilter(r.Prog)
 	for _, sp := range lexSpecs {
-		if only := os.Getenv("PCHECK_ONLY"); only != "" && only != sp.rel {
+		if only != "" && only != sp.rel {
 			continue
 		}
 		runLexer(sub, sp, &tasks)
 	}
-	if os.Getenv("PCHECK_ONLY") == "" {
+	if only == "" {
 		runPosition(sub, &tasks)
 		runJSParsePrefix(sub, &tasks)
 	}
-	if only := os.Getenv("PCHECK_ONLY"); only == "" || only == "cssparser" {
+	if only == "" || only == "cssparser" {
 		runCSSParser(sub, &tasks)
 	}
 	var wg sync.WaitGroup
